@@ -1,5 +1,5 @@
 -------------------------------- MODULE MC_C16 --------------------------------
-(* All histories of the public builder calls up to MAXLEN over a 18-call alphabet (valid and   *)
+(* All histories of the public builder calls up to MAXLEN over a 19-call alphabet (valid and   *)
 (* invalid arguments): the accumulated state must mean what the history means - derives as a   *)
 (* union irrespective of order and repetition, the rule of a source path = the last accepted   *)
 (* insertion (insert-if-absent never replaces), rejected calls change nothing.                 *)
@@ -21,6 +21,7 @@ Alphabet == {
   SubCall("insert", GSrc(<<TPath(FALSE, <<"Vec">>, <<Id("T")>>)>>), Ext("G2", <<Id("T")>>), "nonident", "ok"),
   SubCall("insert", GSrc(<<Id("T")>>), Ext("G2", <<[k |-> "tup", elems |-> <<Id("T"), Id("T")>>]>>), "ok", "nonpath"),
   SubCall("insert_if_not_exists", GSrc(<<Id("T")>>), TPath(FALSE, <<"crate", "local", "G6">>, <<Id("T")>>), "ok", "ok"),
+  SubCall("insert_if_not_exists", GSrc(<<TPath(FALSE, <<"Vec">>, <<Id("A")>>)>>), Ext("G7", <<Id("A")>>), "nonident", "ok"),
   ExtendCall(<<Elem(PB, Ext("B2", <<>>), "ok", "ok"), Elem(GSrc(<<Id("T"), Id("U")>>), Ext("G5", <<Id("T"), Id("U")>>), "ok", "ok")>>),
   ExtendCall(<<Elem(PB, Ext("B3", <<>>), "ok", "ok"), Elem(GSrc(<<Id("T")>>), Ext("X", <<>>), "paren", "ok")>>) }
 
